@@ -473,5 +473,5 @@ META = {
             "printing with 17 digits round-trips. Not modelled: derived datatypes, communicators other than WORLD, location/comm_* actions, allgatherv "
             "lines with displacements, flop amounts of reduce as non-integers.",
     "technique": "Coq proof (codec round trip, list induction) + extracted-model differential correspondence + online/replay date comparison",
-    "claimed": False,
+    "claimed": True,
 }
